@@ -1,7 +1,9 @@
 package props
 
 import (
+	"errors"
 	"fmt"
+	"net"
 	"sort"
 	"strconv"
 	"strings"
@@ -119,6 +121,7 @@ type c02Sample struct {
 	Handlers []worlds.HandlerCall  `json:"handler_calls"`
 	Verdicts string                `json:"verdict_sequence"`
 	ClientEnd int                  `json:"client_end"`
+	LateTail bool                  `json:"tail_after_matching_timeout,omitempty"`
 }
 
 func init() {
@@ -131,7 +134,7 @@ func init() {
 
 func runC02(t *testing.T, e *worlds.Env, tier string) (bool, any) {
 	var w *worlds.TCPWorld
-	var cl *worlds.Client
+	var cl, cl2 *worlds.Client
 	var model, model2 *worlds.ConnModel
 	var spec *RLSpec
 	var hist []worlds.MatchEval
@@ -202,6 +205,12 @@ func runC02(t *testing.T, e *worlds.Env, tier string) (bool, any) {
 		}
 		e.Reg.Add(model)
 		tmo := time.Duration(e.T.Pick("match-timeout", 3000, 500, 100)) * time.Millisecond
+		if n := len(plan.Chunks); n >= 2 && e.T.Prob(1, 6, "late-tail") {
+			// the tail of the stream arrives after the matching timeout has passed: whoever handles
+			// the connection by then must still get it (a deadline left over from matching would cut it)
+			plan.Chunks[n-1].Delay = tmo + 200*time.Millisecond
+			sample.LateTail = true
+		}
 		w = e.NewTCPWorld(routes, tmo)
 		cl = e.StartClient(w.Ln, plan, model)
 		w.Clients = append(w.Clients, cl)
@@ -219,7 +228,8 @@ func runC02(t *testing.T, e *worlds.Env, tier string) (bool, any) {
 			plan2.Chunks = e.MakeChunks(n2, 20*time.Millisecond)
 			plan2.StartAt = time.Duration(e.T.Pick("conn2-start-ms", 0, 3, 400, 4000)) * time.Millisecond
 			e.Reg.Add(model2)
-			w.Clients = append(w.Clients, e.StartClient(w.Ln, plan2, model2))
+			cl2 = e.StartClient(w.Ln, plan2, model2)
+			w.Clients = append(w.Clients, cl2)
 		}
 		sample.Config, sample.AppLen, sample.ClientEnd = spec, appLen, plan.End
 		return w.Done
@@ -238,6 +248,32 @@ func runC02(t *testing.T, e *worlds.Env, tier string) (bool, any) {
 				}
 			}
 			checkC02(e, cfg, m, h, sample)
+			// no handler may lose the stream to a read deadline (the matching deadline is gone once
+			// a route has matched or the fallback has the connection)
+			for _, st := range m.Recorders {
+				var ne net.Error
+				if st.Err != nil && errors.As(st.Err, &ne) && ne.Timeout() && !m.Aborted {
+					e.S.Fail("C02/handler-deadline", "routing", "conn %d: handler %s got a read timeout after %d bytes (from offset %d): it did not receive the stream intact", m.ID, st.Name, st.Got, st.Start)
+				}
+			}
+			// a connection on which nothing was ever evaluated and nothing ran, although the top list
+			// can be decided without a single byte
+			clm := cl
+			if m == model2 {
+				clm = cl2
+			}
+			if len(h) == 0 && len(m.HandlerCalls) == 0 && clm != nil && clm.End != nil && !m.Aborted && clm.Plan.End != worlds.EndAbort && clm.Plan.End != worlds.EndClose {
+				for i := range spec.Routes {
+					v := specRoute(&spec.Routes[i], nil)
+					if v == sNo {
+						continue
+					}
+					if v == sYes {
+						e.S.Fail("C02/match-ignored", "routing", "list L: route %d matches without a single byte (every earlier route is decided as not matching on the empty prefix), the client connected and stayed, but no matcher was evaluated and no handler ran", i)
+					}
+					break
+				}
+			}
 		}
 	})
 	nontrivial := len(sample.Rounds) >= 2 || len(model.HandlerCalls) >= 2
